@@ -29,6 +29,7 @@ from .io import (
     NonSeekableSink,
     NonSeekableSource,
     FalsySubscriber,
+    SharedSubscriber,
     InheritedSubscriber,
     MixinSubscriber,
     RecordingSubscriber,
@@ -164,11 +165,15 @@ def prepare_xfer(obs, x):
             subs.append(InheritedSubscriber(w, x.label, f's{si}', b))  # all callbacks inherited from a base class
         elif b.get('flavor') == 'mixin':
             subs.append(MixinSubscriber(w, x.label, f's{si}', b))  # callbacks provided by a mixin
+        elif b.get('flavor') == 'shared':
+            subs.append(SharedSubscriber(w, x.label, f's{si}', b))  # one object for several transfers (see 'share_subs_with')
         elif b.get('flavor') == 'falsy':
             subs.append(FalsySubscriber(w, x.label, f's{si}', b))  # bool(subscriber) is False (len() == 0)
         else:
             subs.append(RecordingSubscriber(w, x.label, f's{si}', b))
     x.subs = subs
+    if t.get('share_subs_with') is not None:
+        x.subs = obs.xfers[t['share_subs_with']].subs  # the very same subscriber objects as an earlier transfer of this manager
     w.s3.labels[(BUCKET, x.key)] = x.label
     if x.kind == 'upload':
         src = t.get('src', 'path')
